@@ -3,7 +3,7 @@ CFG = {
     "translator": True,
     "count": {"quick": 48000, "thorough": 2400000},
     "lean_files": ['GeoModel/Gen/Kernel.lean', 'GeoProofs/Lemmas/GenKernel.lean', 'GeoModel/TRANPrelude.lean', 'GeoModel/Gen/CoordPosGen.lean',
-                   'GeoProofs/Lemmas/TRANCoordPos.lean', "GeoModel/Intersects.lean", "GeoModel/Contains.lean", "GeoModel/Locate.lean", "GeoModel/Segment.lean",
+                   'GeoProofs/Lemmas/TRANCoordPos.lean', 'GeoModel/Gen/AreaGen.lean', 'GeoModel/Gen/DimsGen.lean', 'GeoProofs/Lemmas/TRANArea.lean', "GeoModel/Intersects.lean", "GeoModel/Contains.lean", "GeoModel/Locate.lean", "GeoModel/Segment.lean",
                    "GeoModel/RelateSpec.lean", "GeoModel/Valid.lean", "GeoModel/Gen/Masks.lean", "GeoModel/Gen/Enums.lean",
                    "GeoModel/Ops/C02.lean", "GeoProofs/Lemmas/SegmentSpec.lean", "GeoProofs/Lemmas/RingSpec.lean",
                    "GeoProofs/Lemmas/LocateLemmas.lean", "GeoProofs/Lemmas/C02QContains.lean", "GeoProofs/Lemmas/C02QWinding.lean",
@@ -58,7 +58,9 @@ MANIFEST = {
             "winding loop with early return, final test), calculateCoordinatePosition_eq_source (the calculate_coordinate_position bodies of Coord, Point, "
             "Line, LineString, Triangle, Rect, MultiPoint, Polygon incl. the loop over interiors, MultiLineString, MultiPolygon as state transformers "
             "PosAcc -> PosAcc) and coordinatePosition_eq_source (the provided trait method) state that calcPoint / calcLine / calcLineString / "
-            "calcTriangle / calcRect / calcPolygon+calcHoles / calcMultiPolygon / coordPos equal the terms regenerated from the Rust bodies on this run.",
+            "calcTriangle / calcRect / calcPolygon+calcHoles / calcMultiPolygon / coordPos equal the terms regenerated from the Rust bodies on this run; "
+            "contains_kernels_eq_source does the same for Line::contains(Coord), Line::contains(Line), Rect::contains(Polygon) (loop with early return and "
+            "counter) and Triangle::intersects(Coord) (unrolled to_lines().map, sort = sort3, windows(2).any).",
     "note": "Trusted: Lean kernel + audited axioms; translator; harness (sampling); spec adequacy. Repaired in /repo by this work: Triangle coordinate_position "
             "(29720670), MultiPolygon shared vertex (5f41a6da), MultiPolygon::contains(MultiPoint) (d4024e6e), MultiLineString::contains(Point) (81f1ade9). "
             "Open: K9 coordinate_position(MultiLineString) at an end point shared by an even number of members (an existing unit test pins that behaviour).",
